@@ -385,7 +385,7 @@ Section Resume.
       destruct (sraise x) eqn:E1; [discriminate|]. destruct (fin x) eqn:E2; [discriminate|].
       destruct (emit x) as [b|] eqn:E3; [|discriminate]. destruct (logs_go CbRecord (slogs x)) eqn:E4; [|discriminate].
       destruct (good_prefix r n) as [bs'|] eqn:E5; [|discriminate]. cbn in H. inversion H; subst bs.
-      cbn [obs_prod is_zero opred option_map skipn]. rewrite (exec_prod x), E1, E2, E3, E3. rewrite deliver_split, E4.
+      cbn [obs_prod is_zero opred option_map skipn]. rewrite (exec_prod x), E1, E2, E3. rewrite deliver_split, E4.
       rewrite batches_of_app, batches_log_events. cbn [app]. change (EBatch b :: ?t) with ([EBatch b] ++ t).
       rewrite batches_of_app. cbn [batches_of flat_map app]. rewrite (IH _ _ E5). reflexivity.
   Qed.
@@ -404,7 +404,7 @@ Section Resume.
       + unfold resume_tok in H. cbn [s_ct] in H. rewrite Hct in H.
         destruct (nwt_all progs f w _) as [rs' w'] eqn:E. inversion H; subst rs w2.
         destruct k as [|k]; cbn [nth_error]; [discriminate|].
-        apply (IH _ _ _ _ eq_refl (Nat.le_0_l 1) E).
+        refine (IH _ _ _ _ _ _ E _ _ _); [reflexivity|cbn; lia].
       + cbn [length] in Hp. lia.
   Qed.
 
@@ -428,7 +428,7 @@ Section Resume.
     unfold nwt in H. rewrite Hp, Hfin, Hct, Hkt in H. unfold exch in H.
     destruct (resolve_ok key cid cp w (mkct key cid curpid i) kt Hw eq_refl eq_refl eq_refl eq_refl eq_refl)
       as [w' [Hr [[Hk' [Hc' [Hl' He']]] Hw']]].
-    rewrite Hr in H. cbn [ct_i ct_pid ct_cid mkct] in H. unfold eff_pid in H. cbn [ct_pid] in H. fold (the_pid curpid cp) in H. fold pid in H.
+    rewrite Hr in H. unfold eff_pid in H. cbn [ct_i ct_pid ct_cid mkct] in H. fold (the_pid curpid cp) in H. fold pid in H.
     rewrite (turn_groups_nogo _ _ _ _ _ (go_none _ _ Hcap)) in H.
     destruct (skipn i (steps (progs pid))) as [|x r] eqn:ES.
     { cbn in H. inversion H; subst. apply nth_single in Hn as [_ Hn]. discriminate. }
@@ -443,7 +443,7 @@ Section Resume.
       - rewrite (S1 eq_refl) in H. destruct (emit x) as [b0|]; cbn in H.
         + destruct (nwt_all progs f w' _) as [rs' w''] eqn:E. inversion H; subst rs w2.
           destruct k as [|k]; cbn [nth_error] in Hn; [discriminate|].
-          exfalso. exact (dead_no_token _ _ _ _ _ eq_refl (Nat.le_0_l 1) E _ _ _ Hn).
+          exfalso. refine (dead_no_token _ _ _ _ _ _ _ E _ _ _ Hn); [reflexivity|cbn; lia].
         + inversion H; subst. apply nth_single in Hn as [_ Hn]. discriminate.
       - destruct (S2 eq_refl) as [e He]. rewrite He in H. inversion H; subst. apply nth_single in Hn as [_ Hn]. discriminate. }
     destruct (emit x) as [b0|] eqn:E3.
@@ -459,9 +459,10 @@ Section Resume.
     unfold resume_tok in H. cbn [s_ct s_kt] in H. inversion H; subst rs w2. clear H.
     assert (Hcap' : cap (w_cfg w') = None) by (rewrite Hc'; exact Hcap).
     destruct k as [|k]; cbn [nth_error] in Hn.
-    - inversion Hn; subst. split; [rewrite Nat.add_1_r; reflexivity|].
+    - inversion Hn as [[Hb Ht]]. clear Hn. subst b tok. split; [rewrite Nat.add_1_r; reflexivity|].
       exists [b0]. cbn [good_prefix]. rewrite E1, E2, E3, E4. split; reflexivity.
-    - destruct (IH (S i) w' _ rs' w'' k b tok Hcap' Hw' eq_refl eq_refl eq_refl eq_refl E Hn) as [Ht [bs [Hg Hi]]].
+    - destruct (IH (S i) w' {| s_pend := []; s_fin := false; s_ct := Some (mkct key cid curpid (S i)); s_kt := Some kt |}
+                 rs' w'' k b tok Hcap' Hw' eq_refl eq_refl eq_refl eq_refl E Hn) as [Ht [bs [Hg Hi]]].
       split; [rewrite Ht; f_equal; f_equal; lia|].
       exists (b0 :: bs). split.
       + change (good_prefix (x :: r) (S (S k))) with
@@ -471,3 +472,93 @@ Section Resume.
       + cbn [firstn items_batches flat_map app] in *. rewrite Hi. reflexivity.
   Qed.
 End Resume.
+
+Section ResumeMain.
+  Variable progs : N -> stream_prog.
+
+  Lemma parse_split c ls q pend :
+    parse_init c (map FLog ls ++ q) pend =
+    if logs_go c ls then (log_events c ls ++ fst (parse_init c q pend), snd (parse_init c q pend)) else (log_events c ls, None).
+  Proof.
+    induction ls as [|m r IH].
+    - cbn. destruct (parse_init c q pend); reflexivity.
+    - cbn [map app parse_init logs_go log_events]. destruct (log_event c m) as [e go]. cbn [fst snd].
+      destruct go; cbn [andb]; [|reflexivity]. rewrite IH. destruct (logs_go c r); reflexivity.
+  Qed.
+
+  Theorem resume_remaining : forall w0 sh pid cid ss w1 fuel rs w2 k b tok,
+    cap (w_cfg w0) = None ->
+    open_sess progs w0 sh pid cid = inr (ss, w1) ->
+    nwt_all progs fuel w1 ss = (rs, w2) ->
+    nth_error rs k = Some (NItem b (Some tok)) ->
+    tok = (mkct (w_key w0) cid (curpid_of sh pid) (S k), Some (mkkt (w_key w0) cid (callpid_of sh pid))) /\
+    emitted (steps (progs pid)) = items_batches (firstn (S k) rs) ++ emitted (skipn (S k) (steps (progs pid))) /\
+    forall w' c fuel', w_key w' = w_key w0 -> cache_ok cid (callpid_of sh pid) (w_cache w') ->
+      (length (steps (progs pid)) < fuel')%nat ->
+      fst (fst (resume_iter progs fuel' c w' tok)) = obs_prod c (skipn (S k) (steps (progs pid))) None.
+  Proof.
+    intros w0 sh pid cid ss w1 fuel rs w2 k b tok Hcap Hopen Hall Hn.
+    assert (Hmain : tok = (mkct (w_key w0) cid (curpid_of sh pid) (S k), Some (mkkt (w_key w0) cid (callpid_of sh pid))) /\
+                    exists bs, good_prefix (steps (progs pid)) (S k) = Some bs /\ items_batches (firstn (S k) rs) = bs).
+    { unfold open_sess, init in Hopen.
+      destruct (ires (progs pid)); try discriminate.
+      rewrite (turn_groups_nogo _ _ _ _ _ (go_none _ _ Hcap)) in Hopen.
+      set (w1' := set_cache w0 _) in *.
+      assert (Hw1 : worker_ok (w_key w0) cid (callpid_of sh pid) w1').
+      { split; [reflexivity|]. cbn. unfold callpid_of. destruct sh; apply cache_ok_put. }
+      assert (Hcap1 : cap (w_cfg w1') = None) by exact Hcap.
+      destruct (steps (progs pid)) as [|x r] eqn:ES.
+      { (* no steps: finished at once *)
+        cbn [concat] in Hopen. rewrite app_nil_r in Hopen. rewrite <- (app_nil_r (map FLog _)) in Hopen. rewrite parse_split in Hopen.
+        destruct (logs_go CbRecord (ilogs (progs pid))); cbn in Hopen; [|discriminate].
+        inversion Hopen; subst ss w1. exfalso.
+        refine (dead_no_token progs _ _ _ _ _ _ _ Hall _ _ _ Hn); [reflexivity|cbn; lia]. }
+      rewrite (exec_prod x) in Hopen.
+      destruct (sraise x) as [e|] eqn:E1.
+      { cbn [concat] in Hopen. rewrite parse_split in Hopen. destruct (logs_go CbRecord (ilogs (progs pid))); cbn in Hopen; discriminate. }
+      destruct (fin x) eqn:E2.
+      { cbn [concat] in Hopen. rewrite app_nil_r in Hopen. rewrite parse_split in Hopen.
+        destruct (logs_go CbRecord (ilogs (progs pid))); [|cbn in Hopen; discriminate].
+        rewrite parse_split in Hopen. destruct (logs_go CbRecord (slogs x)); [|cbn in Hopen; discriminate].
+        exfalso. destruct (emit x); cbn in Hopen; inversion Hopen; subst ss w1;
+          (refine (dead_no_token progs _ _ _ _ _ _ _ Hall _ _ _ Hn); [reflexivity|cbn; lia]). }
+      destruct (emit x) as [b0|] eqn:E3.
+      2:{ cbn [concat] in Hopen. rewrite parse_split in Hopen. destruct (logs_go CbRecord (ilogs (progs pid))); cbn in Hopen; discriminate. }
+      cbn [concat] in Hopen. rewrite app_nil_r in Hopen. rewrite parse_split in Hopen.
+      destruct (logs_go CbRecord (ilogs (progs pid))); [|cbn in Hopen; discriminate].
+      rewrite parse_split in Hopen. destruct (logs_go CbRecord (slogs x)) eqn:E4; [|cbn in Hopen; discriminate].
+      cbn in Hopen. inversion Hopen; subst ss w1. clear Hopen.
+      destruct fuel as [|f]; cbn [nwt_all] in Hall.
+      { inversion Hall; subst. destruct k; discriminate. }
+      unfold nwt in Hall. cbn [s_pend s_fin s_ct s_kt] in Hall.
+      match type of Hall with context [nwt_all progs f w1' ?s] => destruct (nwt_all progs f w1' s) as [rs' w''] eqn:E end.
+      unfold resume_tok in Hall. cbn [s_ct s_kt] in Hall. inversion Hall; subst rs w2. clear Hall.
+      assert (Hg1 : good_prefix (x :: r) 1 = Some [b0]).
+      { cbn [good_prefix]. rewrite E1, E2, E3, E4. reflexivity. }
+      destruct k as [|k]; cbn [nth_error] in Hn.
+      - inversion Hn as [[Hb Ht]]. clear Hn. subst b tok. split.
+        + unfold mkct, mkkt, curpid_of, callpid_of. destruct sh; reflexivity.
+        + exists [b0]. split; [exact Hg1|reflexivity].
+      - assert (Hshape : the_pid (curpid_of sh pid) (callpid_of sh pid) = pid) by apply the_pid_shape.
+        pose proof (nwt_from progs (w_key w0) cid (curpid_of sh pid) (callpid_of sh pid) f 1 w1'
+                      {| s_pend := []; s_fin := false; s_ct := Some (mkct (w_key w0) cid (curpid_of sh pid) 1);
+                         s_kt := Some (mkkt (w_key w0) cid (callpid_of sh pid)) |} rs' w'' k b tok Hcap1 Hw1 eq_refl eq_refl eq_refl eq_refl) as HN.
+        rewrite Hshape, ES in HN. cbn [skipn] in HN.
+        assert (E' : nwt_all progs f w1'
+                       {| s_pend := []; s_fin := false; s_ct := Some (mkct (w_key w0) cid (curpid_of sh pid) 1);
+                          s_kt := Some (mkkt (w_key w0) cid (callpid_of sh pid)) |} = (rs', w'')).
+        { rewrite <- E. unfold mkct, mkkt, curpid_of, callpid_of. destruct sh; reflexivity. }
+        destruct (HN E' Hn) as [Ht [bs [Hg Hi]]]. split; [rewrite Ht; reflexivity|].
+        exists (b0 :: bs). split.
+        + change (good_prefix (x :: r) (S (S k))) with
+            (match sraise x, fin x, emit x, logs_go CbRecord (slogs x) with
+             | None, false, Some b1, true => option_map (cons b1) (good_prefix r (S k)) | _, _, _, _ => None end).
+          rewrite E1, E2, E3, E4, Hg. reflexivity.
+        + cbn [firstn items_batches flat_map app] in *. rewrite Hi. reflexivity. }
+    destruct Hmain as [Ht [bs [Hg Hi]]]. split; [exact Ht|]. split.
+    - rewrite Hi. apply good_obs. exact Hg.
+    - intros w' c fuel' Hk Hc Hf. rewrite Ht. unfold resume_iter. cbn [fst snd].
+      pose proof (follow_obs progs (w_key w0) cid (curpid_of sh pid) (callpid_of sh pid) c fuel' w' (S k) (conj Hk Hc)) as HF.
+      rewrite the_pid_shape in HF. apply HF. rewrite skipn_length. lia.
+  Qed.
+End ResumeMain.
